@@ -3,11 +3,17 @@
 (* interleaved at inner-store-mutation grain.                                *)
 EXTENDS Sidecar, TLC
 
-CONSTANTS MaxCrash
+CONSTANTS MaxCrash,
+  LegKeys       \* keys that may start as legacy (pre-0.10) objects: pointer + data/<k>, or an orphan data/<k>
 VARIABLES crashes
 mvars == <<svars, crashes>>
 
-MCInit == Init /\ crashes = 0
+\* the legacy payloads all hold the smallest value (the values are interchangeable)
+LegVal == CHOOSE v \in Val : \A w \in Val : v <= w
+MCInit ==
+  /\ crashes = 0
+  /\ \E P \in SUBSET LegKeys : \E O \in SUBSET (LegKeys \ P) :
+        InitWith([k \in P |-> LegVal], [k \in O |-> LegVal])
 
 Step(A) == A /\ UNCHANGED crashes
 
